@@ -5,7 +5,8 @@
 From RU Require Import Base.Prelude Base.Utf8 Model.AsciiSet Gen.Tables
   Model.PercentEncoding Model.HostT Model.UrlRecord Model.Parser Model.Setters Spec.Whatwg
   Proofs.C02_Parts Proofs.C01_Tables Proofs.C08_Input
-  Proofs.C01_EqRun Proofs.C01_EqEnc Proofs.C01_EqApi Proofs.C01_EqOpaque Proofs.C01_EqRef.
+  Proofs.C01_EqRun Proofs.C01_EqEnc Proofs.C01_EqApi Proofs.C01_EqOpaque Proofs.C01_EqRef
+  Proofs.C02_Path Proofs.C01_EqPathSpec Proofs.C01_EqPath.
 
 (* outcome of the comparison: the specification succeeds with su, and the model either reports that
    the serialization outgrew u32 (ParseError::Overflow, which the Standard does not have) or succeeds
@@ -125,6 +126,55 @@ Proof.
   right. eexists. split; [exact E|]. apply related_opaque. exact K.
 Qed.
 
+(* ---------- class "path only": non-special scheme, "scheme:/" not followed by a second '/' ---------- *)
+(* excluded (exactly finding F-C01-9): a ".." that would pop a drive-letter-shaped segment; spath_ok
+   runs the Standard's own path state (segment list, buffer) over the text and tests every ".." *)
+Definition in_class_pathonly (input : list N) : bool :=
+  match spec_scheme (spec_clean input) with
+  | Some (sch, 47 :: rest') =>
+      negb (is_special_scheme sch) && negb (starts_with_cp 47 rest') && spath_ok rest' [] []
+  | _ => false
+  end.
+
+Lemma slash_split rem rest' : ntnl rem = 47 :: rest' -> starts_with_cp 47 rest' = false ->
+  exists rem', ntnl rem' = rest' /\ inp_split_prefix_str s_ss rem = None /\ inp_split_prefix_char 47 rem = Some rem'.
+Proof.
+  intros H1 H2. destruct (inp_next_some rem 47 rest' H1) as (r & En & Er & _).
+  exists r. split; [exact Er|]. split.
+  - unfold s_ss. cbn [inp_split_prefix_str]. rewrite En. replace (47 =? 47) with true by reflexivity.
+    destruct (inp_next r) as [[d r']|] eqn:En2; [|reflexivity].
+    destruct (inp_next_ntnl r d r' En2) as [E _]. rewrite Er in E. rewrite E in H2. cbn [starts_with_cp] in H2.
+    rewrite H2. reflexivity.
+  - unfold inp_split_prefix_char. rewrite En. reflexivity.
+Qed.
+
+Theorem class_pathonly dbg hp hpo hd ovr shp shs input : usv_list input -> in_class_pathonly input = true ->
+  agree_rel dbg shs (parse_url dbg hp hpo hd ovr None input) (spec_basic_url_parse shp input None).
+Proof.
+  intros Hu Hc. unfold in_class_pathonly in Hc. rewrite spec_clean_is_ntnl_trim in Hc.
+  destruct (spec_scheme (ntnl (input_new_trim_c0 input))) as [[sch rest]|] eqn:Es; [|discriminate].
+  destruct rest as [|c0 rest']; [discriminate|].
+  destruct (N.eq_dec c0 47) as [->|Hne].
+  2:{ exfalso. destruct c0 as [|p]; [discriminate|]. do 6 (destruct p as [p|p|]; try discriminate). apply Hne. reflexivity. }
+  apply andb_true_iff in Hc. destruct Hc as [Hc H3]. apply andb_true_iff in Hc. destruct Hc as [H1 H2].
+  destruct (spec_scheme_model _ _ _ Es) as (rem & Hs & Hrem).
+  assert (is_special_scheme sch = false) as Hns by (destruct (is_special_scheme sch); [discriminate | reflexivity]).
+  assert (starts_with_cp 47 rest' = false) as H47 by (destruct (starts_with_cp 47 rest'); [discriminate | reflexivity]).
+  pose proof (not_special_type sch Hns) as Ht.
+  destruct (slash_split rem rest' Hrem H47) as (rem' & Er' & Hss & Hsp).
+  subst rest'.
+  destruct (model_noauth dbg hp hpo hd ovr shp input sch rem rem' Hu Hs Ht Hss Hsp H3) as [Hsnd Hm].
+  eexists. split; [exact (spec_noauth shp input sch rem rem' Hs Ht Hrem H47 Hsnd)|].
+  destruct Hm as [E|[E W]]; [left; exact E|].
+  right. eexists. split; [exact E|].
+  assert (fst (spath (ntnl rem') [] []) <> []) as Hne.
+  { clear. generalize (@nil (list N)) at 1. generalize (@nil N).
+    induction (ntnl rem') as [|c r IH]; intros B P; cbn [spath].
+    - cbn [fst]. apply fin_nonempty.
+    - destruct (c =? 47); [apply IH|]. destruct (is_qh c); [cbn [fst]; apply fin_nonempty | apply IH]. }
+  apply related_noauth; [exact Hne | apply spath_no_slash; reflexivity | exact W].
+Qed.
+
 (* ---------- the proved classes, assembled ---------- *)
 (* comparison of outcomes: success with the same ten API strings (or the model's Overflow), or failure
    on both sides *)
@@ -147,7 +197,7 @@ Definition base_rel (dbg : bool) (shs : spec_host -> list N) (b : option url) (s
 
 Definition in_proved_class (sbase : option spec_url) (input : list N) : bool :=
   match sbase with
-  | None => in_class_opaque input
+  | None => in_class_opaque input || in_class_pathonly input
   | Some sb => in_class_fragment_only input || in_class_query_only sb input || in_class_opaque_base_fail sb input
   end.
 
@@ -161,5 +211,7 @@ Proof.
     + apply agree_of_ok, agree_rel_ok. apply class_query_only; assumption.
     + destruct (class_opaque_base_fail dbg hp hpo hd shp shs input b sb Hb Hc) as [[u ->] ->].
       cbn [agree]. eexists. reflexivity.
-  - cbn [in_proved_class] in Hc. apply agree_of_ok. apply class_opaque; assumption.
+  - cbn [in_proved_class] in Hc. apply orb_true_iff in Hc. destruct Hc as [Hc|Hc].
+    + apply agree_of_ok. apply class_opaque; assumption.
+    + apply agree_of_ok, agree_rel_ok. apply class_pathonly; assumption.
 Qed.
